@@ -20,6 +20,8 @@
 #include <Spectra/LinAlg/Arnoldi.h>
 #include <Spectra/LinAlg/Lanczos.h>
 #include <Spectra/Util/TypeTraits.h>
+#include <Spectra/MatOp/DenseSymShiftSolve.h>
+#include <Spectra/MatOp/SymShiftInvert.h>
 #undef private
 #undef protected
 #include "common.h"
@@ -136,6 +138,52 @@ static std::string pred_dsqr(long n, double s_, double t_, const Mat& Hd)
     return o.str();
 }
 
+// ---- C10 predicates on the implementation: all four (triangle x storage order) variants of one Hermitian matrix
+template <typename S> struct FromC { static S go(std::complex<double> z) { return (S) z.real(); } };
+template <typename R> struct FromC<std::complex<R>> { static std::complex<R> go(std::complex<double> z) { return std::complex<R>((R) z.real(), (R) z.imag()); } };
+template <typename S>
+static std::string pred_bk(long n, double shift, const Mat& Re, const Mat& Im)
+{
+    typedef Eigen::Matrix<S, Eigen::Dynamic, Eigen::Dynamic> M; typedef Eigen::Matrix<S, Eigen::Dynamic, Eigen::Dynamic, Eigen::RowMajor> MR;
+    typedef Eigen::Matrix<S, Eigen::Dynamic, 1> V; typedef typename Eigen::NumTraits<S>::Real R;
+    typedef std::complex<long double> CL; typedef Eigen::Matrix<CL, Eigen::Dynamic, Eigen::Dynamic> ML; typedef Eigen::Matrix<CL, Eigen::Dynamic, 1> VL;
+    M A(n, n); ML Al(n, n);
+    for (long i = 0; i < n; i++) for (long j = 0; j < n; j++)
+    {
+        std::complex<double> z(Re(i, j), Eigen::NumTraits<S>::IsComplex ? Im(i, j) : 0.0);
+        Al(i, j) = CL(z.real(), z.imag());
+        A(i, j) = FromC<S>::go(z);
+    }
+    // garbage in the triangle that must not be read
+    M AL = A, AU = A;
+    for (long i = 0; i < n; i++) for (long j = 0; j < n; j++) { if (i < j) AL(i, j) = S(77 + i); if (i > j) AU(i, j) = S(-55 - j); }
+    V b(n); for (long i = 0; i < n; i++) b[i] = S(R(1 + (i % 3)) - R(0.5) * R(i % 2));
+    BKLDLT<S> f1(AL, Eigen::Lower, (R) shift), f2(AU, Eigen::Upper, (R) shift);
+    MR ALr = AL, AUr = AU;
+    BKLDLT<S> f3(ALr, Eigen::Lower, (R) shift), f4(AUr, Eigen::Upper, (R) shift);
+    std::ostringstream o; o.precision(6);
+    o << (int) f1.info() << ' ' << (int) f2.info() << ' ' << (int) f3.info() << ' ' << (int) f4.info() << ' ';
+    bool same = true; long double ratio = 0;
+    if (f1.info() == CompInfo::Successful && f2.info() == CompInfo::Successful && f3.info() == CompInfo::Successful && f4.info() == CompInfo::Successful)
+    {
+        V x1 = f1.solve(b), x2 = f2.solve(b), x3 = f3.solve(b), x4 = f4.solve(b);
+        for (long i = 0; i < n; i++) same = same && x1[i] == x2[i] && x1[i] == x3[i] && x1[i] == x4[i];
+        ML As = Al; for (long i = 0; i < n; i++) As(i, i) -= (long double) shift;
+        VL xl = x1.template cast<CL>(), bl = b.template cast<CL>();
+        long double res = (As * xl - bl).norm(), den = As.norm() * xl.norm() + bl.norm();
+        ratio = res / (den * (long double) std::numeric_limits<R>::epsilon() * n);
+    }
+    o << (same ? 1 : 0) << ' ' << (double) ratio;
+    return o.str();
+}
+static std::string wrapper_bk(long n, double shift, const Mat& A)
+{
+    std::string r1, r2;
+    try { DenseSymShiftSolve<double> op(A); op.set_shift(shift); r1 = "ok"; } catch (const std::invalid_argument&) { r1 = "invalid_argument"; } catch (...) { r1 = "other"; }
+    try { SymShiftInvert<double, Eigen::Dense, Eigen::Dense> op(A, Mat::Identity(n, n)); op.set_shift(shift); r2 = "ok"; } catch (const std::invalid_argument&) { r2 = "invalid_argument"; } catch (...) { r2 = "other"; }
+    return r1 + " " + r2;
+}
+
 int main()
 {
     std::string line;
@@ -150,6 +198,7 @@ int main()
                 const double eps = TypeTraits<double>::epsilon();
                 put(o, eps); put(o, TypeTraits<double>::min() * 10.0); put(o, 0.1 * std::pow(eps, 0.25));
                 put(o, std::pow(eps, 2.0 / 3)); put(o, std::sqrt(eps)); put(o, TypeTraits<double>::min());
+                put(o, (1.0 + std::sqrt(17.0)) / 8.0);
             }
             else if (t[0] == "rot")
             {
@@ -170,6 +219,26 @@ int main()
                 Mat A2 = Y; qr.apply_QY(A2); put(o, A2);
                 Mat A3 = Z; qr.apply_YQ(A3); put(o, A3);
                 Mat A4 = Z; qr.apply_YQt(A4); put(o, A4);
+            }
+            else if (t[0] == "pred_bk")
+            {
+                Reader r(t, 2); long n = r.integer(); double shift = r.real(); Mat Re = r.mat(n, n); Mat Im = r.mat(n, n);
+                if (t[1] == "double") o << pred_bk<double>(n, shift, Re, Im) << ' ' << wrapper_bk(n, shift, Re);
+                else if (t[1] == "float") o << pred_bk<float>(n, shift, Re, Im);
+                else if (t[1] == "ldouble") o << pred_bk<long double>(n, shift, Re, Im);
+                else o << pred_bk<std::complex<double>>(n, shift, Re, Im);
+            }
+            else if (t[0] == "bk")
+            {
+                // bk <n> <shift> <uplo: L|U> <rowmajor 0|1> <A n*n col-major> <b n>
+                Reader r(t, 1); long n = r.integer(); double shift = r.real(); std::string ul = t[r.i++]; long rm = r.integer(); Mat A = r.mat(n, n); Vec b = r.vec(n);
+                BKLDLT<double> bk;
+                if (rm) { Eigen::Matrix<double, Eigen::Dynamic, Eigen::Dynamic, Eigen::RowMajor> Ar = A; bk.compute(Ar, ul == "L" ? Eigen::Lower : Eigen::Upper, shift); }
+                else bk.compute(A, ul == "L" ? Eigen::Lower : Eigen::Upper, shift);
+                o << (int) bk.info() << ' ';
+                for (long i = 0; i < n; i++) o << (long) bk.m_perm[i] << ' ';
+                for (long i = 0; i < bk.m_data.size(); i++) put(o, bk.m_data[i]);
+                if (bk.info() == CompInfo::Successful) { Vec x = bk.solve(b); put(o, x); }
             }
             else if (t[0] == "arnoldi" || t[0] == "lanczos")
             {
